@@ -524,7 +524,7 @@ func guardedByCallOn(b *ssa.BasicBlock, method string, recv ssa.Value) bool {
 		if o == nil || o.Name() != method || len(c.Call.Args) == 0 || !sameLoad(c.Call.Args[0], recv) {
 			continue
 		}
-		if id.Succs[0] == d || id.Succs[0].Dominates(d) {
+		if edgeOnly(id, 0, d) {
 			return true
 		}
 	}
